@@ -75,6 +75,9 @@ theorem makeChunks_go_total (magic version : Nat) (p : DupPolicy) (ids : List (E
   | succ fuel ih =>
     simp only [makeChunks.go] at h
     unfold writeEvents at h
+    by_cases hov : (j + 1) * per < j * per ∨ 4294967296 ≤ (j + 1) * per - j * per
+    · rw [if_pos hov] at h; simp only at h; cases h
+    rw [if_neg hov] at h
     cases hw : windowEvents p ids (j * per) ((j + 1) * per) with
     | error idx => rw [hw] at h; simp only at h; cases h
     | ok win =>
@@ -104,12 +107,49 @@ theorem makeChunks_total (magic version : Nat) (p : DupPolicy) (ids : List (Even
     (hp : 1 ≤ per) (f : List Bytes) (t : Nat) (h : makeChunks magic version p ids per = .ok (f, t)) :
     t = ids.length := by
   unfold makeChunks at h
+  split at h
+  · cases h
   have := makeChunks_go_total magic version p ids per _ 0 [] 0 f t h
   rw [this, Nat.zero_add, ← List.range_eq_range']
   exact sum_chunk_lengths ids per hp
 
 section
 variable {R : Type} [Add R] [Sub R] [Mul R] [Zero R]
+
+/-- the count `ndlCore` returns is the number of events -/
+theorem ndlCore_count (magic version : Nat) (cfg : NdlCfg) (alpha β₁ β₂ lam : R) (cues outs : List String)
+    (vals : Array R) (es : List (Event String String)) (w : LW R) (n : Nat)
+    (h : ndlCore magic version cfg alpha β₁ β₂ lam cues outs vals es = .ok (w, n)) : n = es.length := by
+  unfold ndlCore at h
+  by_cases h1 : cfg.perFile < 2
+  · simp only [h1, if_true] at h; cases h
+  · simp only [h1, if_false] at h
+    cases hmk : makeChunks magic version cfg.policy (es.map (toIds cues outs)) cfg.perFile with
+    | error e => simp only [hmk] at h; cases h
+    | ok ft =>
+      obtain ⟨files, total⟩ := ft
+      simp only [hmk] at h
+      have ht := makeChunks_total magic version cfg.policy _ cfg.perFile (by omega) files total hmk
+      rw [List.length_map] at ht
+      cases hdec : decodeAll magic version files with
+      | error e => simp only [hdec] at h; cases h
+      | ok chunks =>
+        simp only [hdec] at h
+        cases hmeth : cfg.method with
+        | threading =>
+          simp only [hmeth] at h
+          split at h
+          · cases h
+          · simp only [Except.ok.injEq, Prod.mk.injEq] at h
+            rw [← h.2, ht]
+        | openmp =>
+          simp only [hmeth] at h
+          split at h
+          · cases h
+          · split at h
+            · cases h
+            · simp only [Except.ok.injEq, Prod.mk.injEq] at h
+              rw [← h.2, ht]
 
 /-- **the count `ndlModel` returns is the number of events of the file**, whenever
     it returns — no hypothesis on policy, sizes, method or given weights -/
@@ -120,19 +160,9 @@ theorem ndlModel_count (magic version : Nat) (cfg : NdlCfg) (alpha β₁ β₂ l
   rcases hcn : countNames es with ⟨cuesNew, outsNew⟩
   rw [hcn] at h
   simp only at h
-  split at h
-  · cases h
-  · rename_i hper
-    split at h
-    · cases h
-    · rename_i files total hmk
-      split at h
-      · cases h
-      · split at h
-        · cases h
-        · simp only [Except.ok.injEq, Prod.mk.injEq] at h
-          have := makeChunks_total magic version cfg.policy _ cfg.perFile (by omega) files total hmk
-          rw [← h.2, this, List.length_map]
+  cases W0 with
+  | none => exact ndlCore_count _ _ _ _ _ _ _ _ _ _ _ _ _ h
+  | some w0 => exact ndlCore_count _ _ _ _ _ _ _ _ _ _ _ _ _ h
 
 theorem ndlCall_count (magic version : Nat) (cfg : NdlCfg) (alpha β₁ β₂ lam : R) (W0 : Option (LW R))
     (es : List (Event String String)) (w : LW R) (n : Nat)
